@@ -245,6 +245,7 @@ pub fn run(tier: &str) -> Result<Report, String> {
     const HEADER: [&str; 16] = ["3{x}", "!{x}", "\\forall {x}", "@{x}", "in", "i", "inx", "junk", "n", "%d%", "d", ":", "a", "AX {x}", "1", "_"];
     for len in 1..=(if tier == "quick" { 5 } else { 6 }) {
         run_space(&mut rep, &HEADER, len, " ", "header_pieces");
+        run_space(&mut rep, &HEADER, len.min(5), "", "header_pieces_glued");
     }
     let special = special_inputs();
     let mut n_special_acc = 0;
@@ -269,7 +270,7 @@ pub fn run(tier: &str) -> Result<Report, String> {
     rep.sample(json!({"char_string": "3{x}in", "reference": format!("{:?}", rp::parse_str("3{x}in", true).map(|t| t.render()))}));
     rep.sample(json!({"special": special[special.len() / 2]}));
     rep.rule = format!(
-        "(a) every sequence of 1..{t} tokens over the 27-token alphabet {TOKENS:?} joined by single spaces, (b) every string of 1..{k} symbols over {CHARS:?}, (b2) every sequence of up to 5 (6) hybrid-header pieces (3{{x}}, !{{x}}, \\forall {{x}}, @{{x}}, in, i, inx, junk, n, %d%, d, :, a, AX {{x}}, 1, _), (c) {} deterministic long/odd inputs (operator chains of depth 40, all pairs of binary operators, identifier shapes, unicode whitespace at every boundary); each through the plain and the extended tokenizer+parser and through the independent reference tokenizer + recursive-descent parser: accept/reject, token lists and trees must agree, and the extended parser must equal the plain one on plain formulae; distinct_nontrivial = number of distinct trees the grammar derives in the explored spaces",
+        "(a) every sequence of 1..{t} tokens over the 27-token alphabet {TOKENS:?} joined by single spaces, (b) every string of 1..{k} symbols over {CHARS:?}, (b2) every sequence of up to 5 (6) space-separated and of up to 5 glued hybrid-header pieces (3{{x}}, !{{x}}, \\forall {{x}}, @{{x}}, in, i, inx, junk, n, %d%, d, :, a, AX {{x}}, 1, _), (c) {} deterministic long/odd inputs (operator chains of depth 40, all pairs of binary operators, identifier shapes, unicode whitespace at every boundary); each through the plain and the extended tokenizer+parser and through the independent reference tokenizer + recursive-descent parser: accept/reject, token lists and trees must agree, and the extended parser must equal the plain one on plain formulae; distinct_nontrivial = number of distinct trees the grammar derives in the explored spaces",
         special.len()
     );
     rep.assumptions.push("the reference grammar is the one written in the README / property C05 (H* prefix, <=> < => < | < ^ < & < binary temporal < unary, all binary operators right-associative); lexical conventions (maximal-munch identifiers, E?/A? operator names, '3'/'V' alone are quantifiers, Unicode alphanumerics/whitespace) are taken from the documentation of the tokenizer".into());
